@@ -40,7 +40,8 @@ def main():
             rc, out = sh(f"/venv/bin/python -W ignore {demo}", cwd=REPO, timeout=900)
             print(f"demo with change   : exit {rc}  ({out.strip().splitlines()[-1][:150] if out.strip() else ''})")
         for c in checks:
-            rc, out = sh(f"GCMPY_REPO={REPO} ./check {c} --tier {tier}", cwd=VERIF, timeout=7200)
+            rc, out = sh(f"GCMPY_REPO={REPO} VERIF_EVIDENCE_DIR=/tmp/verif_evidence_scratch ./check {c} --tier {tier}",
+                         cwd=VERIF, timeout=7200)
             viol = [l for l in out.splitlines() if l.startswith("VIOLATION")]
             keys = [l for l in out.splitlines() if "violation key=" in l]
             infra = [l for l in out.splitlines() if l.startswith("INFRASTRUCTURE-ERROR")]
